@@ -15,6 +15,9 @@ Re-read from /repo's current sources on every run:
 * whether the store modules are free of per-task / per-context state (no `contextvars`, `threading`,
   `current_task`, `get_ident`): the C20 model treats a task created inside an open `edit_state` block
   (which inherits a copy of its creator's context) like any other task;
+* whether the store modules are free of timers (no `asyncio.wait_for` / `timeout` / `timeout_at` / `sleep` / `wait`,
+  no `call_later` / `call_at`): in the C20 model a task queued on the store lock waits for as long as it takes and
+  no transition of a store depends on the clock, so the time an `edit_state` block stays open cannot matter;
 * whether `SqliteStateStore.set_state` applies `merge_state` also when no row exists;
 * whether a shallow copy of a `DictLikeModel` owns its `_data`, and whether the path
   step helpers address a `DictLikeModel` by name before trying an integer index.
@@ -183,6 +186,25 @@ def _context_free(tree: ast.Module | None) -> bool:
     return True
 
 
+_TIMER_NAMES = {"wait_for", "timeout", "timeout_at", "sleep", "call_later", "call_at", "wait", "Timeout", "TimerHandle"}
+
+
+def _timer_free(tree: ast.Module | None) -> bool:
+    """nothing in the module can bound a wait or read the loop's clock: no name / attribute / import of an asyncio
+    timer primitive (a keyword argument called `timeout`, as in `sqlite3.connect(..., timeout=30.0)`, is neither)"""
+    if tree is None:
+        return False
+    for n in ast.walk(tree):
+        if isinstance(n, (ast.Import, ast.ImportFrom)) and any((a.asname or a.name).split(".")[-1] in _TIMER_NAMES
+                                                                or a.name.split(".")[-1] in _TIMER_NAMES for a in n.names):
+            return False
+        if isinstance(n, ast.Name) and n.id in _TIMER_NAMES:
+            return False
+        if isinstance(n, ast.Attribute) and n.attr in _TIMER_NAMES:
+            return False
+    return True
+
+
 def _row_none_merges(methods: dict[str, ast.AST]) -> bool:
     """the method holding the `row is None` test of set_state does not return early from that branch
     and calls merge_state after it"""
@@ -254,6 +276,11 @@ def extract(notes: list[str]) -> dict:
     for k in ("memContextFree", "sqlContextFree"):
         if not r[k]:
             notes.append(f"gen/statestore: {k}: the module refers to contextvars / threading / current_task")
+    r["memTimerFree"] = _timer_free(core)
+    r["sqlTimerFree"] = _timer_free(sq)
+    for k in ("memTimerFree", "sqlTimerFree"):
+        if not r[k]:
+            notes.append(f"gen/statestore: {k}: the module uses an asyncio timer primitive (wait_for / timeout / sleep / call_later ...)")
     r["sqlRowNoneMerges"] = _row_none_merges(sql)
     dl = _methods(_class(ev, "DictLikeModel"))
     owns = False
@@ -276,7 +303,8 @@ def generate(notes: list[str]) -> list[str]:
     out = ["namespace GenStateStore", f"def maxDepth : Nat := {r['maxDepth']}"]
     for k in ("memSetLocked", "memSetStateLocked", "memClearLocked", "memEditLocked", "sqlSetLocked", "sqlSetStateLocked",
               "sqlClearLocked", "sqlEditLocked", "sqlRowNoneMerges", "dictLikeCopyOwnsData", "dictLikeByName",
-              "memGetStateCopies", "memLockScoped", "sqlLockScoped", "memContextFree", "sqlContextFree"):
+              "memGetStateCopies", "memLockScoped", "sqlLockScoped", "memContextFree", "sqlContextFree",
+              "memTimerFree", "sqlTimerFree"):
         out.append(f"def {k} : Bool := {b(r[k])}")
     out.append("end GenStateStore")
     return out
